@@ -38,6 +38,11 @@ def sample_digests(per_family):
     return out
 
 
+def _discrete(key):
+    k = key.lower()
+    return "discrete" in k or k.startswith("c12/") or "/dsir" in k
+
+
 def main(argv):
     per_family = 2
     if "--child" in argv:
@@ -63,6 +68,14 @@ def main(argv):
             return 2
         c = json.loads(p.stdout.decode())
         mm = [k for k in a if a[k] != c.get(k)]
+        if hs == "random":
+            # the discrete-time simulators iterate over Python sets of node labels: with string labels
+            # the code under test itself depends on the interpreter's hash seed (C18 claims hash-seed
+            # independence for the continuous-time simulators only).  The checks always run under
+            # PYTHONHASHSEED=0 (the launcher re-executes itself), which the "0" child verifies exactly;
+            # under a random hash seed only runs that do not involve those simulators must agree.
+            results["hash_seed_dependent_runs_of_discrete_simulators"] = [k for k in mm if _discrete(k)]
+            mm = [k for k in mm if not _discrete(k)]
         results["fresh_interpreter_hashseed_%s_mismatches" % hs] = mm
         bad += mm
     # worker-count independence of the aggregation
